@@ -158,6 +158,16 @@ MagicAt(j) ==
       c0 == Form(MagicForms[f + 1], PlainAcct(Mn2), ChanNo(k + f + ch), <<78, j>>)
   IN  CItem("magic_content", [c0 EXCEPT !.inp = [hex |-> BytesToHex(MagicContent(k))]])
 
+\* ---- I: the input file's NAME (regular file and named pipe): only the path "-" itself means standard input -----
+NameForms == <<13, 9, 4, 10>>
+NNames == Len(FileNames) * 4 * 2
+NameAt(j) ==
+  LET nm == FileNames[1 + ((j - 1) % Len(FileNames))]
+      f  == NameForms[1 + (((j - 1) \div Len(FileNames)) % 4)]
+      ch == IF (j - 1) \div (4 * Len(FileNames)) = 0 THEN "file" ELSE "fifo"
+      c0 == Form(f, PlainAcct(Mn2), ch, <<79, j>>)
+  IN  CItem("file_names", [c0 EXCEPT !.inp = @ @@ [fname |-> nm]])
+
 O1 == NSample
 O2 == O1 + NLattice
 O3 == O2 + 3 * NSessions
@@ -165,7 +175,8 @@ O4 == O3 + NBad
 O5 == O4 + NBig
 O6 == O5 + NZeroKey
 O7 == O6 + NChunked
-Count == O7 + NMagicItems
+O8 == O7 + NMagicItems
+Count == O8 + NNames
 ItemAt(g) ==
   IF g <= O1 THEN SampleAt(g)
   ELSE IF g <= O2 THEN LatticeAt(g - O1)
@@ -174,7 +185,9 @@ ItemAt(g) ==
   ELSE IF g <= O5 THEN BigAt(g - O4)
   ELSE IF g <= O6 THEN ZeroKeyAt(g - O5)
   ELSE IF g <= O7 THEN ChunkedAt(g - O6)
-  ELSE MagicAt(g - O7)
+  ELSE IF g <= O8 THEN MagicAt(g - O7)
+  ELSE NameAt(g - O8)
+Histories == 0
 VARIABLE n
 INSTANCE GenBase
 =============================================================================
